@@ -222,6 +222,57 @@ Proof.
 Qed.
 
 (** ------------------------------------------------------------------ the small conversion / test helpers (bignum.h:65-126) *)
+Lemma lsint_lt_0_Z a : ls_ok a -> lsint_lt_0 a = if luval a <? 0 then 1 else 0.
+Proof.
+  destruct a as [ah al]. intros [Hh Hl]. unfold lsint_lt_0, luval, s64, u64 in *. cbn [fst snd] in *. unfold M64 in *.
+  destruct (Z.ltb_spec ah 0), (Z.ltb_spec (ah * 18446744073709551616 + al) 0); lia.
+Qed.
+
+Lemma fits_sint_Z x : ls_ok x ->
+  sexp_lsint_fits_sint x = if (- 9223372036854775808 <=? luval x) && (luval x <? 9223372036854775808) then 1 else 0.
+Proof.
+  destruct x as [xh xl]. intros [Hh Hl]. unfold sexp_lsint_fits_sint, luval, s64, u64 in *. cbn [fst snd] in *.
+  rewrite wrap64, swrap64, Z.shiftr_div_pow2 by lia. change (2 ^ 63) with 9223372036854775808. unfold M64 in *.
+  set (sl := (xl + 9223372036854775808) mod 18446744073709551616 - 9223372036854775808).
+  assert (sl = xl \/ sl = xl - 18446744073709551616) as Hsl by (unfold sl; lia).
+  assert (sl mod 18446744073709551616 = xl) as Em by (unfold sl; lia).
+  rewrite Em, Z.eqb_refl, andb_true_r.
+  assert (sl / 9223372036854775808 = if xl <? 9223372036854775808 then 0 else -1) as Ed.
+  { unfold sl. destruct (Z.ltb_spec xl 9223372036854775808); lia. }
+  rewrite Ed.
+  destruct (Z.ltb_spec xl 9223372036854775808), (Z.leb_spec (-9223372036854775808) (xh * 18446744073709551616 + xl)),
+    (Z.ltb_spec (xh * 18446744073709551616 + xl) 9223372036854775808); cbn [andb];
+    match goal with |- (if ?a =? ?b then _ else _) = _ => destruct (Z.eqb_spec a b) end; lia.
+Qed.
+
+Lemma fits_uint_Z x : lu_ok x -> sexp_luint_fits_uint x = if luval x <? M64 then 1 else 0.
+Proof.
+  destruct x as [xh xl]. intros [Hh Hl]. unfold sexp_luint_fits_uint, luval, u64 in *. cbn [fst snd] in *.
+  rewrite Z.eqb_refl, andb_true_r. unfold M64 in *.
+  destruct (Z.eqb_spec xh 0), (Z.ltb_spec (xh * 18446744073709551616 + xl) 18446744073709551616); lia.
+Qed.
+
+Lemma lsint_from_sint_Z v : s64 v -> ls_ok (lsint_from_sint v) /\ luval (lsint_from_sint v) = v.
+Proof.
+  intros Hv. unfold lsint_from_sint, ls_ok, luval, s64, u64 in *. cbv zeta. cbn [fst snd].
+  rewrite wrap64, Z.shiftr_div_pow2 by lia. change (2 ^ 63) with 9223372036854775808. unfold M64 in *. lia.
+Qed.
+
+Lemma luint_from_uint_Z v : u64 v -> lu_ok (luint_from_uint v) /\ luval (luint_from_uint v) = v.
+Proof. intros Hv. unfold luint_from_uint, lu_ok, luval, u64 in *. cbv zeta. cbn [fst snd]. unfold M64 in *. lia. Qed.
+
+Lemma lsint_to_sint_Z v : ls_ok v ->
+  s64 (lsint_to_sint v) /\ lsint_to_sint v mod M64 = luval v mod M64 /\ lsint_to_sint_hi v = luval v / M64.
+Proof.
+  destruct v as [vh vl]. intros [Hh Hl]. unfold lsint_to_sint, lsint_to_sint_hi, luval, s64, u64 in *. cbn [fst snd] in *.
+  rewrite swrap64. unfold M64 in *. lia.
+Qed.
+
+Lemma luint_to_uint_Z v : lu_ok v -> luint_to_uint v = luval v mod M64 /\ luint_to_uint_hi v = luval v / M64.
+Proof.
+  destruct v as [vh vl]. intros [Hh Hl]. unfold luint_to_uint, luint_to_uint_hi, luval, u64 in *. cbn [fst snd] in *. unfold M64 in *. lia.
+Qed.
+
 Theorem conversions_Z :
   (forall a, ls_ok a -> lsint_lt_0 a = if luval a <? 0 then 1 else 0) /\
   (forall x, ls_ok x -> sexp_lsint_fits_sint x = if (- 9223372036854775808 <=? luval x) && (luval x <? 9223372036854775808) then 1 else 0) /\
@@ -233,33 +284,80 @@ Theorem conversions_Z :
   (forall v, ls_ok v -> lu_ok (luint_from_lsint v) /\ luval (luint_from_lsint v) = luval v mod M128) /\
   (forall v, lu_ok v -> ls_ok (lsint_from_luint v) /\ luval (lsint_from_luint v) = smod128 (luval v)).
 Proof.
-  repeat split.
-  - intros [ah al] [Hh Hl]. unfold lsint_lt_0, luval, s64, u64 in *. cbn [fst snd] in *. unfold M64 in *.
-    destruct (Z.ltb_spec ah 0), (Z.ltb_spec (ah * 18446744073709551616 + al) 0); lia.
-  - intros [xh xl] [Hh Hl]. unfold sexp_lsint_fits_sint, luval, s64, u64 in *. cbn [fst snd] in *.
-    rewrite wrap64, swrap64, Z.shiftr_div_pow2 by lia. change (2 ^ 63) with 9223372036854775808. unfold M64 in *.
-    destruct (Z.eqb_spec xh (((xl + 9223372036854775808) mod 18446744073709551616 - 9223372036854775808) / 9223372036854775808)),
-      (Z.eqb_spec (((xl + 9223372036854775808) mod 18446744073709551616 - 9223372036854775808) mod 18446744073709551616) xl),
-      (Z.leb_spec (-9223372036854775808) (xh * 18446744073709551616 + xl)), (Z.ltb_spec (xh * 18446744073709551616 + xl) 9223372036854775808);
-      cbn [andb]; lia.
-  - intros [xh xl] [Hh Hl]. unfold sexp_luint_fits_uint, luval, u64 in *. cbn [fst snd] in *. rewrite Z.eqb_refl, andb_true_r. unfold M64 in *.
-    destruct (Z.eqb_spec xh 0), (Z.ltb_spec (xh * 18446744073709551616 + xl) 18446744073709551616); lia.
-  - unfold lsint_from_sint, ls_ok, s64, u64. cbv zeta. cbn [fst snd]. rewrite wrap64, Z.shiftr_div_pow2 by lia.
-    change (2 ^ 63) with 9223372036854775808. unfold s64, M64 in *. lia.
-  - unfold lsint_from_sint, luval, s64. cbv zeta. cbn [fst snd]. rewrite wrap64, Z.shiftr_div_pow2 by lia.
-    change (2 ^ 63) with 9223372036854775808. unfold s64, M64 in *. lia.
-  - unfold luint_from_uint, lu_ok, u64 in *. cbv zeta. cbn [fst snd]. unfold M64 in *. lia.
-  - unfold luint_from_uint, lu_ok, u64 in *. cbv zeta. cbn [fst snd]. unfold M64 in *. lia.
-  - unfold luint_from_uint, luval. cbv zeta. cbn [fst snd]. lia.
-  - destruct v as [vh vl]. destruct H as [Hh Hl]. unfold lsint_to_sint, s64, u64 in *. cbn [fst snd] in *. rewrite swrap64. unfold M64 in *. lia.
-  - destruct v as [vh vl]. destruct H as [Hh Hl]. unfold lsint_to_sint, luval, s64, u64 in *. cbn [fst snd] in *. rewrite swrap64. unfold M64 in *. lia.
-  - destruct v as [vh vl]. destruct H as [Hh Hl]. unfold lsint_to_sint_hi, luval, s64, u64 in *. cbn [fst snd] in *. unfold M64 in *. lia.
-  - destruct v as [vh vl]. destruct H as [Hh Hl]. unfold luint_to_uint, luval, u64 in *. cbn [fst snd] in *. unfold M64 in *. lia.
-  - destruct v as [vh vl]. destruct H as [Hh Hl]. unfold luint_to_uint_hi, luval, u64 in *. cbn [fst snd] in *. unfold M64 in *. lia.
-  - apply luint_from_lsint_Z; assumption.
-  - apply luint_from_lsint_Z; assumption.
-  - apply luint_from_lsint_Z; assumption.
-  - apply lsint_from_luint_Z; assumption.
-  - apply lsint_from_luint_Z; assumption.
-  - apply lsint_from_luint_Z; assumption.
+  split; [exact lsint_lt_0_Z|]. split; [exact fits_sint_Z|]. split; [exact fits_uint_Z|]. split; [exact lsint_from_sint_Z|].
+  split; [exact luint_from_uint_Z|]. split; [exact lsint_to_sint_Z|]. split; [exact luint_to_uint_Z|].
+  split; [exact luint_from_lsint_Z|exact lsint_from_luint_Z].
+Qed.
+
+(** ------------------------------------------------------------------ custom long longs refine the native 128-bit type
+    at the three places the code uses them (bignum.c:247-266 fxmul, 269-280 fxdiv, 1516-1521 fix*fix; vm.c multiply):
+    the step each loop body computes with the struct helpers is the step on Z that C04's model takes. *)
+Definition fxmul_step (x b carry : Z) : Z * Z :=       (* bignum.c:257-259 -> (digit written, new carry) *)
+  let n := luint_add (luint_mul_uint (luint_from_uint x) b) (luint_from_uint carry) in
+  (luint_to_uint n, luint_to_uint (luint_shr n 64)).
+
+Definition fxdiv_step (r d b : Z) : Z * Z :=           (* bignum.c:274-278 -> (quotient digit, new remainder) *)
+  let n := luint_add (luint_shl (luint_from_uint r) 64) (luint_from_uint d) in
+  let q := luint_to_uint (luint_div_uint n b) in
+  (q, luint_to_uint (luint_sub n (luint_mul_uint (luint_from_uint q) b))).
+
+Definition fixmul (a b : Z) : option Z :=              (* bignum.c:1517-1521: Some = fixnum result, None = hand over to bignums *)
+  let prod := lsint_mul_sint (lsint_from_sint a) b in
+  if lsint_is_fixnum prod =? 0 then None else Some (lsint_to_sint prod).
+
+Theorem custom_long_longs_refines_native :
+  (forall x b carry, u64 x -> u64 b -> u64 carry ->
+     fxmul_step x b carry = ((x * b + carry) mod M64, (x * b + carry) / M64)) /\
+  (forall r d b, u64 r -> u64 d -> u64 b -> r < b ->
+     fxdiv_step r d b = ((r * M64 + d) / b, (r * M64 + d) mod b)) /\
+  (forall a b, - 4611686018427387904 <= a <= 4611686018427387903 -> - 4611686018427387904 <= b <= 4611686018427387903 ->
+     fixmul a b = if (- 4611686018427387904 <=? a * b) && (a * b <=? 4611686018427387903) then Some (a * b) else None).
+Proof.
+  split; [|split].
+  - intros x b carry Hx Hb Hc. unfold fxmul_step. cbv zeta.
+    destruct (luint_from_uint_Z x Hx) as [Kx Vx]. destruct (luint_from_uint_Z carry Hc) as [Kc Vc].
+    destruct (luint_mul_uint_Z _ b Kx Hb) as (Km & Vm & _). destruct (luint_add_Z _ _ Km Kc) as [Kn Vn].
+    destruct (luint_shr_Z _ 64 Kn ltac:(lia)) as [Ks Vs].
+    destruct (luint_to_uint_Z _ Kn) as [E1 _]. destruct (luint_to_uint_Z _ Ks) as [E2 _].
+    rewrite E1, E2, Vs, Vn, Vm, Vx, Vc. change (2 ^ 64) with M64.
+    assert (0 <= x * b + carry < M128) as R by (unfold u64 in *; rewrite M128_M64; pose proof M64_pos; nia).
+    rewrite (Z.mod_small (x * b) M128) by (unfold u64 in *; rewrite M128_M64 in *; pose proof M64_pos; nia).
+    rewrite (Z.mod_small (x * b + carry) M128) by exact R.
+    f_equal. apply Z.mod_small. split; [apply Z.div_pos; [lia|reflexivity]|].
+    apply Z.div_lt_upper_bound; [reflexivity|]. rewrite <- M128_M64. lia.
+  - intros r d b Hr Hd Hb Hlt. unfold fxdiv_step. cbv zeta.
+    destruct (luint_from_uint_Z r Hr) as [Kr Vr]. destruct (luint_from_uint_Z d Hd) as [Kd Vd].
+    destruct (luint_shl_Z _ 64 Kr ltac:(lia)) as [Ks Vs]. destruct (luint_add_Z _ _ Ks Kd) as [Kn Vn].
+    assert (0 < b) as Hb0 by (unfold u64 in *; lia).
+    set (N := r * M64 + d).
+    assert (0 <= N < b * M64) as RN by (unfold N, u64 in *; pose proof M64_pos; nia).
+    assert (luval (luint_add (luint_shl (luint_from_uint r) 64) (luint_from_uint d)) = N) as VN.
+    { rewrite Vn, Vs, Vr, Vd. change (2 ^ 64) with M64. unfold N.
+      rewrite (Z.mod_small (r * M64) M128) by (unfold u64 in *; rewrite M128_M64; pose proof M64_pos; nia).
+      apply Z.mod_small. unfold u64 in *. rewrite M128_M64. pose proof M64_pos. nia. }
+    set (n := luint_add (luint_shl (luint_from_uint r) 64) (luint_from_uint d)) in *.
+    destruct (luint_div_uint_Z n b Kn Hb ltac:(lia)) as [Kq Vq]. rewrite VN in Vq.
+    assert (0 <= N / b < M64) as Rq.
+    { split; [apply Z.div_pos; lia|]. apply Z.div_lt_upper_bound; [lia|]. lia. }
+    destruct (luint_to_uint_Z _ Kq) as [Eq _]. rewrite Vq, (Z.mod_small _ _ Rq) in Eq. rewrite Eq.
+    f_equal.
+    destruct (luint_from_uint_Z (N / b) Rq) as [Kqq Vqq]. destruct (luint_mul_uint_Z _ b Kqq Hb) as (Km & Vm & _).
+    destruct (luint_sub_Z n _ Kn Km) as [Ksb Vsb]. destruct (luint_to_uint_Z _ Ksb) as [Er _].
+    rewrite Er, Vsb, Vm, Vqq, VN.
+    pose proof (Z.div_mod N b ltac:(lia)) as EDM. pose proof (Z.mod_pos_bound N b Hb0) as RM.
+    assert (0 <= N / b * b <= N) as Rp by nia.
+    rewrite (Z.mod_small (N / b * b) M128) by (unfold u64 in *; rewrite M128_M64; pose proof M64_pos; nia).
+    replace (N - N / b * b) with (N mod b) by lia.
+    rewrite (Z.mod_small (N mod b) M128) by (unfold u64 in *; rewrite M128_M64; pose proof M64_pos; nia).
+    apply Z.mod_small. unfold u64 in *. lia.
+  - intros a b Ha Hb. unfold fixmul. cbv zeta.
+    assert (s64 a) as Sa by (unfold s64; lia). assert (s64 b) as Sb by (unfold s64; lia).
+    destruct (lsint_from_sint_Z a Sa) as [Ka Va].
+    destruct (lsint_mul_sint_Z _ b Ka Sb ltac:(lia)) as (Kp & Vp & _). rewrite Va in Vp.
+    assert (- (M128 / 2) <= a * b < M128 / 2) as Rab by (unfold M128; nia).
+    assert (smod128 (a * b) = a * b) as Esm by (unfold smod128, M128 in *; lia).
+    rewrite Esm in Vp. rewrite (lsint_is_fixnum_Z _ Kp), Vp.
+    destruct ((-4611686018427387904 <=? a * b) && (a * b <=? 4611686018427387903)) eqn:EF; cbn [Z.eqb]; [|reflexivity].
+    f_equal. destruct (lsint_to_sint_Z _ Kp) as (S1 & S2 & _). rewrite Vp in S2.
+    apply andb_prop in EF. destruct EF as [E1 E2]. apply Z.leb_le in E1, E2. unfold s64, M64 in *. lia.
 Qed.
